@@ -4,7 +4,7 @@
    every generated design by the check; `assign_value` / `exec` / `apply_nbas` are the IEEE-1364 semantics of Model/VSem.v.
    okn env n : net n has positive width and holds a value inside its width.  val n := getv env (fst n). *)
 From V Require Import Base.Bits Gen.WireOps Gen.Helpers Gen.Prims Gen.Seq Model.VSyntax Model.VSem Model.Inline
-  Proofs.C01.InlineSound Proofs.C01.InlineSound2 Proofs.C01.RegSound.
+  Proofs.C01.InlineSound Proofs.C01.InlineSound2 Proofs.C01.RegSound Proofs.C01.PowerUp.
 
 Notation val env n := (getv env (fst n)).
 
@@ -121,12 +121,12 @@ Theorem C01_reg_sound : forall w wd we wr has_e has_r rv ins st rqv,
   vreg_traj w wd we wr has_e has_r rv rqv ins = sreg_traj w has_e has_r rv st ins.
 Proof. exact reg_history. Qed.
 
-(* ---------------- refutations: classes excluded by the guards above are genuinely different (known findings) *)
-(* power-up: `reg [3:0] rq = 3` is 3 before the first edge; the simulator's q wire is 0 (Wire.value initialised to 0) *)
-Theorem C01_reg_powerup_refuted :
-  let f := {| f_nets := [mk_net "q" 4 false 0 false; mk_net "rq" 4 false 3 true]; f_assigns := [(RLId 0 4, RId 1 4 false)]; f_procs := [] |} in
-  fst (settle f (settle_fuel f) (power_up f)) = [3; 3] /\ (3 <> 0).
-Proof. split; [vm_compute; reflexivity | discriminate]. Qed.
+(* ---------------- power-up: the emitted `reg [w-1:0] rq = rv; assign q = rq;` shows trunc w rv on q as soon as the assign has settled, before
+   any clock edge — what Reg.__init__ puts on q since /repo 1f058fe (value := reset_value; q.put(value)); EVERY width and reset value
+   (the whole-design statement against the kernel's init_poked is C01_powerup_compose in Properties/C01Compose.v) *)
+Theorem C01_reg_powerup_shows_reset : forall w rv, 0 < w ->
+  settle (reg_powerup_flat w rv) (settle_fuel (reg_powerup_flat w rv)) (power_up (reg_powerup_flat w rv)) = ([trunc w rv; trunc w rv], true).
+Proof. exact reg_powerup_shows_reset. Qed.
 
 (* non-vacuity of the hypotheses *)
 Example C01_nonvacuous : okn [5; 12; 0] (0%nat, 3) /\ okn [5; 12; 0] (1%nat, 4) /\
@@ -160,4 +160,4 @@ Print Assumptions C01_inline_equalconst_masked_sound.
 Print Assumptions C01_inline_bits_sound.
 Print Assumptions C01_bits_propagate_nth.
 Print Assumptions C01_reg_sound.
-Print Assumptions C01_reg_powerup_refuted.
+Print Assumptions C01_reg_powerup_shows_reset.
